@@ -1,7 +1,7 @@
 """C11 — stdlib string, encoding, parsing and hashing functions match their definitions.
 
 Theorems: coq/theories/Common/Utf8.v + coq/theories/C11 (UTF-8 round trip / decoder soundness /
-prefix freedom; findSubstr's byte walk = the code-point definition; substr; split laws;
+prefix freedom / full self-synchronisation; findSubstr's byte walk = the code-point definition; substr; split byte search = code-point definition + laws; endsWith; strip;
 parse_nat classifier + exact accumulation below 2^53; codepoint/char; base64 round trip).
 Correspondence: generated calls std.<fn>(args) -> (a) evaluated by the real code through
 `jrharness eval` (batched arrays of calls; a failing batch is re-run call by call), (b) the Coq
@@ -26,7 +26,6 @@ ALPHA2 = ALPHA + ["z", "Z", "@", "[", "`", "{", "'", '"', "$", "<", ">", "&", "\
                   "\u00c9", "\u212a", "\u0130", "\u017f"]
 SMALL = ["a", "é", "\U0001F600"]
 ERR = ("ERR",)
-K_HEX = "C11-parsehex-punctuation-digits"
 K_SPLIT = "C11-split-empty-separator-accepted"
 
 
@@ -343,11 +342,11 @@ def enumerate_cases(run, scale=1):
     R = g.rng
     cases = []
     add = cases.append
-    n_rand = (45 if not thorough else 1500) * scale
+    n_rand = (30 if not thorough else 1500) * scale
 
-    # ---- the fixed corpus: known findings and boundary witnesses first
-    for s in [":", "?", "1:", ";", "<", "=", ">"]:
-        add(("parsehex", s))
+    # ---- the fixed corpus: known findings and past defects first
+    for s in [":", "?", "1:", ";", "<", "=", ">", "f:", "@"]:
+        add(("parsehex", s))   # fixed 37ccdb5: ':'..'?' were read as the digits 10..15
     for s, c in [("abc", ""), ("", ""), ("éa", "")]:
         add(("split", s, c))
         add(("splitlimit", s, c, 1))
@@ -356,15 +355,16 @@ def enumerate_cases(run, scale=1):
     # ---- unary string functions: all strings of length <= 2 (3 in thorough) + random up to 12
     base = all_strings(ALPHA, 3 if thorough else 2)
     rand12 = [g.s(ALPHA, 3, 12) for _ in range(n_rand)]
-    rand2 = [g.s(ALPHA2, 1, 8) for _ in range(n_rand)] + [a for a in ALPHA2] + [a + b for a in ALPHA2[11:] for b in ("a", "é")]
+    rand2 = [g.s(ALPHA2, 1, 8) for _ in range(n_rand)] + [a for a in ALPHA2] + [a + "é" for a in ALPHA2[11:]]
     if not thorough:
-        base3 = [g.s(ALPHA, 3, 3) for _ in range(40)]
+        base3 = [g.s(ALPHA, 3, 3) for _ in range(25)]
     else:
         base3 = []
     for s in base + base3 + rand12:
         for k in ("length", "chars", "encode", "b64"):
             add((k, s))
-    for s in base[:134] + rand12[:40] + rand2:
+    per_char = (all_strings(ALPHA, 1) + rand12[:15] + rand2) if not thorough else (base[:134] + rand12[:40] + rand2)
+    for s in per_char:
         for k in ("upper", "lower", "escbash", "escdollars", "escxml", "escjson", "trim", "isempty", "rt_utf8", "rt_b64"):
             add((k, s))
         if R.chance(0.3):
@@ -380,23 +380,23 @@ def enumerate_cases(run, scale=1):
         for k in HASHES:
             add((k, s))
     # ---- substr: every from / len in 0..len+2
-    subs = all_strings(SMALL, 2) + [g.s(ALPHA, 3, 6) for _ in range(12 * scale)] + [g.s(ALPHA, 7, 12) for _ in range(4 * scale)]
+    subs = all_strings(SMALL, 2) + [g.s(ALPHA, 3, 6) for _ in range(6 * scale)] + [g.s(ALPHA, 7, 12) for _ in range(2 * scale)]
     for s in subs:
         for f in range(len(s) + 3):
             for n in range(len(s) + 3):
-                if len(s) <= 3 or R.chance(0.35):
+                if len(s) <= 2 or R.chance(0.3):
                     add(("substr", s, f, n))
     # ---- findSubstr / startsWith / endsWith / equalsIgnoreCase: exhaustive small, overlapping, random
     small3 = all_strings(SMALL, 3)
     pats = all_strings(SMALL, 2)
     for s in small3:
         for p in pats:
-            if len(s) <= 2 or R.chance(0.5 if not thorough else 1):
+            if len(s) <= 2 or R.chance(0.3 if not thorough else 1):
                 add(("find", p, s))
-            if R.chance(0.25):
+            if R.chance(0.12):
                 add(("starts", s, p))
                 add(("ends", s, p))
-    for _ in range(n_rand * 4):
+    for _ in range(n_rand * 3):
         s = g.rep(R.choice([ALPHA, SMALL, ["a", "b"], ["é", "ß", "世"]]), 12) if R.chance(0.6) else g.s(ALPHA, 0, 12)
         p = g.sub_of(s, ALPHA)
         add(("find", p, s))
@@ -416,13 +416,13 @@ def enumerate_cases(run, scale=1):
     seps = [x for x in all_strings(SMALL, 2) if x]
     for s in small3:
         for c in seps:
-            if R.chance(0.35 if not thorough else 1):
+            if R.chance(0.2 if not thorough else 1):
                 add(("split", s, c))
                 n = R.choice([None, 0, 1, 2, 3, len(s) + 2])
                 add(("splitlimit", s, c, n))
                 add(("splitlimitr", s, c, n))
                 add(("replace", s, c, R.choice(["", "b", c + c, "世"])))
-    for _ in range(n_rand * 3):
+    for _ in range(n_rand * 2):
         s = g.rep(R.choice([ALPHA, SMALL, ["a", ","], ["é", "\U0001F600"]]), 12)
         c = g.sub_of(s, ALPHA) or "a"
         add(("split", s, c))
@@ -439,7 +439,7 @@ def enumerate_cases(run, scale=1):
             add(("splitlimitr", s, c, n))
         add(("replace", s, c, "x"))
     # ---- strip family
-    for _ in range(n_rand * 3):
+    for _ in range(n_rand * 2):
         cs = g.s(R.choice([ALPHA, SMALL, ["a", " "]]), 0, 3)
         core_ = g.s(ALPHA, 0, 4)
         s = g.s(list(cs) or ["a"], 0, 3) + core_ + g.s(list(cs) or ["a"], 0, 3)
@@ -447,7 +447,7 @@ def enumerate_cases(run, scale=1):
             add((k, s, cs))
         if cs:
             add(("stripa", s, cs))
-    for s in small3[:60]:
+    for s in small3[:40]:
         for cs in ("a", "éa", "\U0001F600"):
             add(("strip", s, cs))
             add(("rstrip", s, cs))
@@ -480,8 +480,9 @@ def enumerate_cases(run, scale=1):
             for tail in ([], [0x62], [0x80]):
                 bs = ctx + bad + tail
                 add(("decode", bs, None))
-                add(("decode", bs, False))
-    for _ in range(n_rand * 3):
+                if not tail or thorough:
+                    add(("decode", bs, False))
+    for _ in range(n_rand * 2):
         bs = [R.choice(HOSTILE_BYTES) if R.chance(0.7) else R.below(256) for _ in range(R.randint(0, 8))]
         add(("decode", bs, R.choice([None, True, False])))
         good = list(g.s(ALPHA, 0, 4).encode("utf-8"))
@@ -529,7 +530,8 @@ def enumerate_cases(run, scale=1):
 
 
 # ------------------------------------------------------------------ the check
-BATCH = 24
+BATCH = 40
+CHUNK = 4
 
 
 def run_code(run, binary, cases, expect_ok):
@@ -585,7 +587,15 @@ def correspond(run, binary, cases):
         if q is not None:
             exprs.append(f"(spec_call ({q}), impl_call ({q}))")
             where.append(i)
-    model = core.coq_eval(IMPORTS, exprs)
+    # several calls per Eval (a list of pairs): fewer coqc processes, whose start-up dominates
+    chunks = [exprs[i:i + CHUNK] for i in range(0, len(exprs), CHUNK)]
+    raw = core.coq_eval(IMPORTS, ["[" + "; ".join(ch) + "]" for ch in chunks])
+    model = []
+    for ch, r in zip(chunks, raw):
+        if isinstance(r, list) and len(r) == len(ch):
+            model.extend(r)
+        else:
+            model.extend([r if isinstance(r, tuple) and r and r[0] == "ERROR" else ("ERROR", repr(r)[:300])] * len(ch))
     spec = [None] * len(cases)
     impl = [None] * len(cases)
     bad_model = 0
@@ -629,7 +639,7 @@ def correspond(run, binary, cases):
     expect_ok = [not (e is None or e == ERR or e == ("INF",)) for e in expect]
     answers, nreq = run_code(run, binary, cases, expect_ok)
     run.log(f"harness done ({nreq} requests)")
-    hits = {K_HEX: 0, K_SPLIT: 0}
+    hits = {K_SPLIT: 0}
     for i, c in enumerate(cases):
         if expect[i] is None:
             continue
@@ -669,11 +679,7 @@ def correspond(run, binary, cases):
             model_diffs.append({"case": case, "impl_model": exp_show, "code": show(got)})
             continue
         # ---- known findings: narrow classifiers
-        if kind == "parsehex" and any(58 <= ord(ch) <= 63 for ch in c[1]) and exp == ERR \
-                and impl[i] is not None and got == as_value(impl[i]):
-            f["known"] = K_HEX
-            hits[K_HEX] += 1
-        elif kind in ("split", "splitlimit", "splitlimitr") and c[2] == "" and exp == ERR and isinstance(got, list):
+        if kind in ("split", "splitlimit", "splitlimitr") and c[2] == "" and exp == ERR and isinstance(got, list):
             f["known"] = K_SPLIT
             hits[K_SPLIT] += 1
         failures.append(f)
